@@ -268,7 +268,7 @@ async fn forkid_level(out: &mut Out, seed: u64, tier: &str) {
         let lens_t = interesting_lengths(trunk_hashes.len(), thorough);
         let lens_y = interesting_lengths(yh.len(), thorough);
         // role 1: A = trunk (requester, every interesting length), B = Y (peer, grown step by step)
-        let mut results: Vec<(String, usize, String, usize, u64)> = vec![]; // (A name, la, B name, lb, anc)
+        let mut results: Vec<(String, usize, String, usize, u64, bool)> = vec![]; // (A name, la, B name, lb, anc, peer holds the requester's fork as an older side chain)
         let gy = grow(ychain, |lb, node| {
             if !lens_y.contains(&lb) {
                 return;
@@ -276,9 +276,9 @@ async fn forkid_level(out: &mut Out, seed: u64, tier: &str) {
             for &la in &lens_t {
                 if let Some(fid) = gt.fids[la - 1] {
                     if let Ok(anc) = guarded(|| node.blockchain.generate_last_shared_ancestor(la as u64, fid)) {
-                        results.push(("T".into(), la, name.clone(), lb, anc));
+                        results.push(("T".into(), la, name.clone(), lb, anc, false));
                     } else {
-                        results.push(("T".into(), la, name.clone(), lb, u64::MAX));
+                        results.push(("T".into(), la, name.clone(), lb, u64::MAX, false));
                     }
                 }
             }
@@ -299,20 +299,61 @@ async fn forkid_level(out: &mut Out, seed: u64, tier: &str) {
             for &la in &lens_y {
                 if let Some(fid) = gy.fids[la - 1] {
                     if let Ok(anc) = guarded(|| node.blockchain.generate_last_shared_ancestor(la as u64, fid)) {
-                        results.push((name.clone(), la, "T".into(), lb, anc));
+                        results.push((name.clone(), la, "T".into(), lb, anc, false));
                     } else {
-                        results.push((name.clone(), la, "T".into(), lb, u64::MAX));
+                        results.push((name.clone(), la, "T".into(), lb, u64::MAX, false));
                     }
                 }
             }
         })
         .await;
-        for (an, la, bn, lb, anc) in results {
+        // role 3: A = trunk, B = Y, but the peer first held the REQUESTER's fork (trunk blocks above the fork point) as its
+        // longest chain and then reorganised onto the longer, heavier Y: at the heights of the requester's fork its ring
+        // items hold the requester's block FIRST and its own longest-chain block second. The answer must not change
+        // (the estimate is defined on the peer's longest chain only) — same model line, token `side`.
+        let fp0 = fork_point(&trunk_hashes, &yh) as usize;
+        let blen = yh.len() - fp0;
+        if fp0 >= 1 && blen >= 6 {
+            let ls = (fp0 + blen * 2 / 3).min(trunk_hashes.len());
+            let mut node = Node::new(7, Cfg::new(GP, HEARTBEAT, 1000));
+            let mut ok = true;
+            for b in ychain[..fp0].iter().chain(trunk_chain[fp0..ls].iter()) {
+                match guarded_async(node.add_block(b.clone())).await {
+                    Ok(r) if add_result_class(&r) == "added_lc" => {}
+                    _ => ok = false,
+                }
+            }
+            for (k, b) in ychain[fp0..].iter().enumerate() {
+                if !ok {
+                    break;
+                }
+                if guarded_async(node.add_block(b.clone())).await.is_err() {
+                    ok = false;
+                    break;
+                }
+                let lb = fp0 + k + 1;
+                let on_y = node.tip().map(|t| t.1) == Some(b.hash);
+                out.count(&format!("forkid:side-first:{}", if on_y { "peer-reorganised-onto-own-fork" } else { "peer-still-on-requester-fork" }));
+                if !on_y {
+                    continue;
+                }
+                for &la in lens_t.iter().filter(|la| **la <= ls + 3) {
+                    if let Some(fid) = gt.fids[la - 1] {
+                        let anc = guarded(|| node.blockchain.generate_last_shared_ancestor(la as u64, fid)).unwrap_or(u64::MAX);
+                        results.push(("T".into(), la, name.clone(), lb, anc, true));
+                    }
+                }
+            }
+            if !ok {
+                out.count("forkid:side-first:history-could-not-be-built");
+            }
+        }
+        for (an, la, bn, lb, anc, side) in results {
             let (ah, afid) = if an == "T" { (&trunk_hashes[..la], gt.fids[la - 1]) } else { (&yh[..la], gy.fids[la - 1]) };
             let bh = if bn == "T" { &trunk_hashes[..lb] } else { &yh[..lb] };
             let fp = fork_point(ah, bh);
             let nwc = no_window_collision(ah, bh);
-            let op = format!("pair {} {} {} {}", an, la, bn, lb);
+            let op = format!("pair {} {} {} {}{}", an, la, bn, lb, if side { " side" } else { "" });
             let ans = if anc == u64::MAX {
                 "panic".to_string()
             } else {
@@ -692,8 +733,9 @@ impl PNode {
         let mut mp = self.mempool_lock.write().await;
         for b in chain {
             let r = guarded_async(bc.add_block(b.clone(), &mut self.consensus.storage, &mut mp, &*cfg)).await?;
-            if add_result_class(&r) != "added_lc" {
-                return Err(format!("preload block {} -> {}", b.id, add_result_class(&r)));
+            let c = add_result_class(&r);
+            if c != "added_lc" && c != "added_side" {
+                return Err(format!("preload block {} -> {}", b.id, c));
             }
         }
         Ok(())
@@ -754,15 +796,36 @@ pub struct World {
     /// observations for the monitors
     pub delivered_before_parent: [bool; 2],
     pub first_not_genesis: [bool; 2],
-    /// a parent-less block went through the main path of add_block on this node (pinned orphan branch): from here on
-    /// the real verdict of Block::validate depends on the missing parent, which the chain model's `ok` bit cannot express
-    pub dirty: [bool; 2],
+    /// a parent-less block went through the main path of add_block on this node (pinned orphan branch)
+    pub parentless: [bool; 2],
     pub steps: usize,
     pub log: Vec<String>,
+    /// no 16-bit window collision between the two chains (harness-side check)
+    pub nwc: bool,
+    /// schedule so far: (choice taken, number of alternatives)
+    pub trace: Vec<(usize, usize)>,
+    /// case description, case index, run number, kind of schedule — echoed before every consensus delivery so that the
+    /// parent process can name and resume a run whose handler never returns
+    pub ctx: (String, usize, usize, &'static str),
 }
 
 /// emitter of correspondence lines: ("S"|"O"|"I"|"H"|"M", text)
 pub type Emit<'a> = &'a mut dyn FnMut(&str, &str);
+
+/// feature of a node's history (priority order), computed from what the harness itself saw
+pub fn history_feature(nwc: bool, first_not_genesis: bool, before_parent: bool, ld: bool) -> &'static str {
+    if !nwc {
+        "window-collision"
+    } else if first_not_genesis {
+        "first-block-given-to-empty-node-is-not-genesis"
+    } else if before_parent && !ld {
+        "block-fetched-before-its-parent/retry-rule-off"
+    } else if before_parent {
+        "block-fetched-before-its-parent/retry-rule-on"
+    } else {
+        "none"
+    }
+}
 
 impl World {
     fn flush_wires(&mut self) {
@@ -906,24 +969,33 @@ impl World {
                             self.first_not_genesis[i] = true;
                         }
                         if empty || !self.retry_rule {
-                            self.dirty[i] = true;
+                            self.parentless[i] = true;
                         }
                     }
-                    if self.dirty[i] {
-                        op = op.map(|o| format!("{} dirty", o));
+                    if self.parentless[i] {
+                        // statistics only (the driver ignores the token): deliveries at/after a parent-less block that went
+                        // through the main path of add_block — compared like every other line
+                        op = op.map(|o| format!("{} parentless-history", o));
                     }
                     self.log.push(format!("{}:consensus(block {}{})", self.nodes[i].name, block.id, if known { "" } else { " BEFORE PARENT" }));
                 } else {
                     self.log.push(format!("{}:consensus(other)", self.nodes[i].name));
                 }
                 if let Some(op) = &op {
+                    let f = history_feature(self.nwc, self.first_not_genesis[i], self.delivered_before_parent[i], self.retry_rule);
+                    emit(
+                        "F",
+                        &serde_json::json!({"node": self.nodes[i].name, "feature": f, "case": self.ctx.0, "case_index": self.ctx.1, "run": self.ctx.2,
+                            "kind": self.ctx.3, "trace": self.trace.iter().map(|x| vec![x.0, x.1]).collect::<Vec<_>>(), "events": self.log})
+                        .to_string(),
+                    );
                     emit("O", op);
                 }
                 let r = guarded_async(self.nodes[i].consensus.process_event(ev)).await;
                 if op.is_some() {
                     let ans = match &r {
                         Ok(_) => observe(&self.nodes[i], ids).await,
-                        Err(_) => "dead".to_string(),
+                        Err(_) => "panic".to_string(),
                     };
                     emit("I", &ans);
                 }
@@ -985,13 +1057,16 @@ pub struct PairSpec {
     /// witness cases: fixed factory seed and ONE fixed schedule (choice indices, then leftmost)
     pub build_seed: Option<u64>,
     pub schedule: Option<Vec<usize>>,
+    /// the peer received the requester's fork FIRST (it was its longest chain) and reorganised onto its own longer fork
+    /// later: at the heights of the requester's fork its index holds the requester's block first, its own block second
+    pub peer_saw_requester_fork: bool,
 }
 
 impl PairSpec {
     fn describe(&self) -> String {
         format!(
-            "shared={} a_empty={} sa={} sb={} dt_a={} dt_b={} ld={} batch={} mode={:?} fifo={} handshake={} collision_pair={}",
-            self.shared, self.a_empty as u8, self.sa, self.sb, self.dt_a, self.dt_b, self.ld as u8, self.batch, self.mode, self.fifo as u8, self.handshake as u8, self.collision as u8
+            "shared={} a_empty={} sa={} sb={} dt_a={} dt_b={} ld={} batch={} mode={:?} fifo={} handshake={} collision_pair={} peer_saw_requester_fork={}",
+            self.shared, self.a_empty as u8, self.sa, self.sb, self.dt_a, self.dt_b, self.ld as u8, self.batch, self.mode, self.fifo as u8, self.handshake as u8, self.collision as u8, self.peer_saw_requester_fork as u8
         )
     }
 }
@@ -1000,7 +1075,20 @@ pub fn pair_cases(seed: u64, tier: &str) -> Vec<PairSpec> {
     let thorough = tier == "thorough";
     let mut r = Rng::new(seed ^ 0xC15);
     let mut v = vec![];
-    let base = PairSpec { shared: 0, a_empty: false, sa: 0, sb: 2, dt_a: 400, dt_b: 300, ld: false, batch: 10, mode: Mode::Eager, fifo: true, handshake: false, exhaustive: true, max_runs: 400, collision: false, build_seed: None, schedule: None };
+    let base = PairSpec { shared: 0, a_empty: false, sa: 0, sb: 2, dt_a: 400, dt_b: 300, ld: false, batch: 10, mode: Mode::Eager, fifo: true, handshake: false, exhaustive: true, max_runs: 400, collision: false, build_seed: None, schedule: None, peer_saw_requester_fork: false };
+    if std::env::var("C15_EXPLORE_CASES").is_ok() {
+        // debugging aid (not used by ./check): small forked pairs, random schedules, to look for witnesses of a stall
+        for shared in 0..6usize {
+            for sa in 1..5usize {
+                for sb in sa + 1..sa + 5 {
+                    for bseed in 1..4u64 {
+                        v.push(PairSpec { shared, sa, sb, build_seed: Some(bseed), exhaustive: false, max_runs: 60, ..base.clone() });
+                    }
+                }
+            }
+        }
+        return v;
+    }
     // 0. witnesses of the listed findings: fixed factory seed, ONE fixed schedule each (see known_findings.json)
     //    W1 requester [G], peer [G,B1,B2]; block 3 is fetched before block 2; retry rule off (shipped) / on (control)
     for ld in [false, true] {
@@ -1015,11 +1103,25 @@ pub fn pair_cases(seed: u64, tier: &str) -> Vec<PairSpec> {
     //    W5 requester [G,T1..T3,A1..A4], peer [G,T1..T3,B1..B5]; fetch order 6,7,8,5,9: the parent-less run 6,7,8 is adopted,
     //       block 5 arrives too late to be indexed, block 9 extends the run: same tip as the peer, different chain
     v.push(PairSpec { shared: 3, sa: 4, sb: 5, build_seed: Some(3), schedule: Some(vec![0, 0, 0, 0, 0, 0, 0, 2, 0, 2, 0, 2, 1, 0, 0]), ..base.clone() });
+    //    W6 requester [G,A1..A4], peer [G,B1..B5]; fetch order 2,4,3,5. Pinned tree: parent-less block 4 is stored, the node
+    //       stays behind. Tree with the transaction verdict propagated (fix F1): block 5 spends an output that is not spendable
+    //       on the requester's ledger, is now INVALID inside the two-block candidate [4,5] and Blockchain::validate never returns
+    v.push(PairSpec { shared: 0, sa: 4, sb: 5, build_seed: Some(1), schedule: Some(vec![0, 0, 0, 1, 0, 0, 2, 0, 0, 0, 0]), ..base.clone() });
     //    W4 the pair with a 16-bit window collision at checkpoint id 10 (fork point 5), blocks fetched in order
     if collision_nonce().is_some() {
         for ld in [false, true] {
             v.push(PairSpec { shared: 4, sa: 7, sb: 9, ld, collision: true, schedule: Some(vec![]), ..base.clone() });
         }
+    }
+    // 0c. the peer holds the requester's fork as an OLDER side chain (it received that fork first and reorganised onto its
+    //     own longer, heavier fork later); fork lengths > 10, fork point / requester tip straddling the checkpoints 10, 20, 30.
+    //     (shared, sa, sb): fork point = shared+1, requester tip = shared+1+sa, peer tip = shared+1+sb. In-order schedule for
+    //     both values of the retry switch (must converge, every needed block requested), plus random schedules.
+    for (shared, sa, sb) in [(4usize, 9usize, 15usize), (8, 12, 14), (9, 11, 13), (10, 10, 12), (0, 21, 23), (14, 16, 19), (11, 6, 9)] {
+        for ld in [false, true] {
+            v.push(PairSpec { shared, sa, sb, ld, peer_saw_requester_fork: true, build_seed: Some(1), schedule: Some(vec![]), ..base.clone() });
+        }
+        v.push(PairSpec { shared, sa, sb, ld: true, peer_saw_requester_fork: true, build_seed: Some(2), exhaustive: false, max_runs: if thorough { 6 } else { 2 }, mode: Mode::Full, ..base.clone() });
     }
     // 1. small pairs, exhaustive schedules: empty / shorter / forked requester, peer longer by 1..3
     let cap = if thorough { 20000 } else { 2500 };
@@ -1064,6 +1166,7 @@ pub fn pair_cases(seed: u64, tier: &str) -> Vec<PairSpec> {
             collision: false,
             build_seed: None,
             schedule: None,
+            peer_saw_requester_fork: sa > 0 && k % 3 == 0,
         });
     }
     v
@@ -1072,6 +1175,8 @@ pub fn pair_cases(seed: u64, tier: &str) -> Vec<PairSpec> {
 pub struct BuiltPair {
     pub a_chain: Vec<Block>,
     pub b_chain: Vec<Block>,
+    /// order in which the peer received its blocks (its chain; or the requester's fork first, then its own longer one)
+    pub b_history: Vec<Block>,
     pub all: HashMap<SaitoHash, Block>,
     pub wins: bool,
     pub fork_point: u64,
@@ -1098,7 +1203,15 @@ pub async fn build_pair(seed: u64, s: &PairSpec) -> Option<BuiltPair> {
     let bf = |c: &[Block]| c[fp.min(c.len())..].iter().map(|b| b.burnfee as u128).sum::<u128>();
     let wins = b_chain.len() > a_chain.len() && bf(&b_chain) >= bf(&a_chain);
     let nwc = no_window_collision(&ah, &bh);
-    Some(BuiltPair { a_chain, b_chain, all, wins, fork_point: fp as u64, nwc })
+    let mut b_history = vec![];
+    if s.peer_saw_requester_fork && wins && !a_chain.is_empty() {
+        // shared blocks, the requester's fork (the peer's longest chain for a while), then the peer's own, longer fork
+        b_history.extend(a_chain.iter().cloned());
+        b_history.extend(b_chain[fp.min(b_chain.len())..].iter().cloned());
+    } else {
+        b_history = b_chain.clone();
+    }
+    Some(BuiltPair { a_chain, b_chain, b_history, all, wins, fork_point: fp as u64, nwc })
 }
 
 fn install_peer(n: &mut PNode, other_pk: saito_core::core::defs::SaitoPublicKey) {
@@ -1132,7 +1245,7 @@ pub struct RunResult {
 }
 
 /// one complete execution under the schedule `prefix` (then leftmost choices), or under `rng` if given
-pub async fn run_schedule(s: &PairSpec, bp: &BuiltPair, ids: &mut Ids, prefix: &[usize], mut rng: Option<&mut Rng>, emit: Emit<'_>) -> Result<RunResult, String> {
+pub async fn run_schedule(s: &PairSpec, bp: &BuiltPair, ids: &mut Ids, prefix: &[usize], mut rng: Option<&mut Rng>, ctx: (usize, usize), emit: Emit<'_>) -> Result<RunResult, String> {
     let mut cfg_a = Cfg::new(GP, HEARTBEAT, 1000);
     cfg_a.blockchain.initial_loading_completed = s.ld;
     let mut cfg_b = Cfg::new(GP, HEARTBEAT, 1000);
@@ -1140,7 +1253,10 @@ pub async fn run_schedule(s: &PairSpec, bp: &BuiltPair, ids: &mut Ids, prefix: &
     let mut a = PNode::new("a", 11, cfg_a, s.batch);
     let mut b = PNode::new("b", 12, cfg_b, s.batch);
     a.preload(&bp.a_chain).await?;
-    b.preload(&bp.b_chain).await?;
+    b.preload(&bp.b_history).await?;
+    if b.tip().await.map(|t| t.1) != bp.b_chain.last().map(|x| x.hash) {
+        return Err("the peer is not on its own chain after loading its history".into());
+    }
     let (apk, bpk) = (a.pk, b.pk);
     if s.handshake {
         // a dials b: a knows b as a static peer, b meets an unknown incoming connection and starts the handshake
@@ -1151,7 +1267,8 @@ pub async fn run_schedule(s: &PairSpec, bp: &BuiltPair, ids: &mut Ids, prefix: &
         install_peer(&mut a, bpk);
         install_peer(&mut b, apk);
     }
-    let mut w = World { nodes: vec![a, b], blocks: bp.all.clone(), mode: s.mode, fifo: s.fifo, retry_rule: s.ld, delivered_before_parent: [false; 2], first_not_genesis: [false; 2], dirty: [false; 2], steps: 0, log: vec![] };
+    let mut w = World { nodes: vec![a, b], blocks: bp.all.clone(), mode: s.mode, fifo: s.fifo, retry_rule: s.ld, delivered_before_parent: [false; 2], first_not_genesis: [false; 2], parentless: [false; 2], steps: 0, log: vec![], nwc: bp.nwc, trace: vec![],
+        ctx: (s.describe(), ctx.0, ctx.1, if s.schedule.is_some() { "fixed" } else if s.exhaustive { "exhaustive" } else { "random" }) };
     emit("S", "restore a");
     emit("S", "restore b");
     if s.handshake {
@@ -1168,7 +1285,6 @@ pub async fn run_schedule(s: &PairSpec, bp: &BuiltPair, ids: &mut Ids, prefix: &
         w.run(Choice::Rout(0), ids, emit).await;
     }
     w.settle(ids, emit).await;
-    let mut trace = vec![];
     let mut pos = 0;
     loop {
         let alts = w.alternatives();
@@ -1186,7 +1302,7 @@ pub async fn run_schedule(s: &PairSpec, bp: &BuiltPair, ids: &mut Ids, prefix: &
             0
         };
         pos += 1;
-        trace.push((pick, alts.len()));
+        w.trace.push((pick, alts.len()));
         let c = alts[pick].clone();
         if let (Choice::Msg(i), false) = (&c, w.fifo) {
             // unordered link: bring a pseudo-randomly chosen message to the front (derived from the step number)
@@ -1221,7 +1337,7 @@ pub async fn run_schedule(s: &PairSpec, bp: &BuiltPair, ids: &mut Ids, prefix: &
     }
     let dead = w.nodes[0].dead.clone().or(w.nodes[1].dead.clone());
     Ok(RunResult {
-        trace,
+        trace: w.trace.clone(),
         converged,
         a_tip,
         b_tip,
@@ -1251,7 +1367,9 @@ fn next_prefix(trace: &[(usize, usize)]) -> Option<Vec<usize>> {
 }
 
 /// run one case (all its schedules) and stream tagged lines
-pub async fn run_pair_case(seed: u64, ci: usize, s: &PairSpec, emit: Emit<'_>) {
+/// `resume` = (runs already done, schedule prefix to continue the depth-first enumeration from): set by the parent
+/// process after it had to kill a worker whose consensus handler did not return
+pub async fn run_pair_case(seed: u64, ci: usize, s: &PairSpec, resume: Option<(usize, Vec<usize>)>, emit: Emit<'_>) {
     let bp = match build_pair(s.build_seed.unwrap_or(seed.wrapping_add(ci as u64 * 7919)), s).await {
         Some(x) => x,
         None => {
@@ -1261,7 +1379,7 @@ pub async fn run_pair_case(seed: u64, ci: usize, s: &PairSpec, emit: Emit<'_>) {
     };
     // model nodes: load both chains once, snapshot
     let mut ids = Ids::default();
-    for (name, chain) in [("a", &bp.a_chain), ("b", &bp.b_chain)] {
+    for (name, chain) in [("a", &bp.a_chain), ("b", &bp.b_history)] {
         emit("S", &format!("reset {} {} {}", name, GP, s.ld as u8));
         for blk in chain.iter() {
             let onp = validates_without_parent(blk, &Cfg::new(GP, 100, 50)).await;
@@ -1277,15 +1395,22 @@ pub async fn run_pair_case(seed: u64, ci: usize, s: &PairSpec, emit: Emit<'_>) {
         if s.ld { "retry-rule-on" } else { "retry-rule-off" }
     );
     let mut prefix: Vec<usize> = s.schedule.clone().unwrap_or_default();
-    let mut rng = Rng::new(seed ^ (ci as u64) << 8 ^ 0xABCD);
     let mut runs = 0;
+    if let Some((done, p)) = resume {
+        runs = done;
+        if s.exhaustive {
+            prefix = p;
+        }
+    }
     let mut exhausted = false;
     let mut reported: BTreeSet<String> = BTreeSet::new();
     loop {
+        // one generator per run, so that a case can be resumed at any run
+        let mut rng = Rng::new(seed ^ (ci as u64) << 8 ^ 0xABCD ^ (runs as u64).wrapping_mul(0x9E37_79B9));
         let r = if s.exhaustive || s.schedule.is_some() {
-            run_schedule(s, &bp, &mut ids, &prefix, None, emit).await
+            run_schedule(s, &bp, &mut ids, &prefix, None, (ci, runs), emit).await
         } else {
-            run_schedule(s, &bp, &mut ids, &[], Some(&mut rng), emit).await
+            run_schedule(s, &bp, &mut ids, &[], Some(&mut rng), (ci, runs), emit).await
         };
         runs += 1;
         let r = match r {
@@ -1297,19 +1422,7 @@ pub async fn run_pair_case(seed: u64, ci: usize, s: &PairSpec, emit: Emit<'_>) {
         };
         // ---- monitors (harness-side features only)
         // feature of the history, computed from what the harness itself saw (priority order)
-        let feature_of = |i: usize| -> String {
-            if !bp.nwc {
-                "window-collision".to_string()
-            } else if r.first_not_genesis[i] {
-                "first-block-given-to-empty-node-is-not-genesis".to_string()
-            } else if r.before_parent[i] && !s.ld {
-                "block-fetched-before-its-parent/retry-rule-off".to_string()
-            } else if r.before_parent[i] {
-                "block-fetched-before-its-parent/retry-rule-on".to_string()
-            } else {
-                "none".to_string()
-            }
-        };
+        let feature_of = |i: usize| -> String { history_feature(bp.nwc, r.first_not_genesis[i], r.before_parent[i], s.ld).to_string() };
         let feature = feature_of(0);
         let replay = || {
             serde_json::json!({"suite": "forkid", "seed": seed, "case_index": ci, "case": s.describe(),
@@ -1378,7 +1491,7 @@ pub async fn run_pair_case(seed: u64, ci: usize, s: &PairSpec, emit: Emit<'_>) {
 /// `harness forkid-explore`: search pairs/schedules for a handler panic (debugging aid, not part of ./check)
 pub fn explore() {
     let rt = rt();
-    let base = PairSpec { shared: 0, a_empty: false, sa: 0, sb: 2, dt_a: 400, dt_b: 300, ld: false, batch: 10, mode: Mode::Eager, fifo: true, handshake: false, exhaustive: false, max_runs: 1, collision: false, build_seed: None, schedule: None };
+    let base = PairSpec { shared: 0, a_empty: false, sa: 0, sb: 2, dt_a: 400, dt_b: 300, ld: false, batch: 10, mode: Mode::Eager, fifo: true, handshake: false, exhaustive: false, max_runs: 1, collision: false, build_seed: None, schedule: None, peer_saw_requester_fork: false };
     let mut best: Option<(usize, String)> = None;
     for shared in [0usize, 1, 2, 3, 5] {
         for sa in 0..5usize {
@@ -1393,7 +1506,7 @@ pub fn explore() {
                         let mut ids = Ids::default();
                         let mut rng = Rng::new(sseed);
                         let mut emit = |_: &str, _: &str| {};
-                        if let Ok(r) = rt.block_on(run_schedule(&s, &bp, &mut ids, &[], Some(&mut rng), &mut emit)) {
+                        if let Ok(r) = rt.block_on(run_schedule(&s, &bp, &mut ids, &[], Some(&mut rng), (0, 0), &mut emit)) {
                             let want = std::env::var("C15_EXPLORE").unwrap_or("panic".into());
                             let hit = match want.as_str() {
                                 "panic" => r.dead.is_some(),
@@ -1435,7 +1548,16 @@ pub fn worker(seed: u64, tier: &str, start: usize) {
             writeln!(o, "{}\t{}", tag, s).unwrap();
             o.flush().unwrap();
         };
-        rt.block_on(run_pair_case(seed, ci, c, &mut emit));
+        // C15_RESUME="<runs done>;<c0,c1,…>" applies to the first case of this worker only
+        let resume = if ci == start {
+            std::env::var("C15_RESUME").ok().and_then(|v| {
+                let (n, p) = v.split_once(';')?;
+                Some((n.parse().ok()?, p.split(',').filter_map(|x| x.parse().ok()).collect::<Vec<usize>>()))
+            })
+        } else {
+            None
+        };
+        rt.block_on(run_pair_case(seed, ci, c, resume, &mut emit));
     }
     let mut o = stdout.lock();
     writeln!(o, "E\t{}", all.len()).unwrap();
@@ -1458,12 +1580,22 @@ pub fn run(seed: u64, tier: &str, outdir: &str) {
         }
     }
     rt().block_on(forkid_level(&mut out, seed, tier));
-    // protocol level in a child process (a spinning add_block becomes `stall`)
+    // protocol level in a child process: a consensus handler that never returns (the Wind/Unwind loop of
+    // Blockchain::validate cycling) becomes the answer `stall`; the worker is killed and the case is resumed after that schedule
     let exe = std::env::current_exe().unwrap();
     let mut start = 0usize;
+    let mut resume: Option<String> = None;
     let mut stalls = 0;
+    let mut stalls_in_case = 0;
+    let max_stalls = if tier == "thorough" { 120 } else { 30 };
     'outer: loop {
-        let mut child = Command::new(&exe).args(["forkid-worker", &seed.to_string(), tier, &start.to_string()]).stdout(Stdio::piped()).stderr(Stdio::null()).spawn().unwrap();
+        let mut cmd = Command::new(&exe);
+        cmd.args(["forkid-worker", &seed.to_string(), tier, &start.to_string()]).stdout(Stdio::piped()).stderr(Stdio::null());
+        match &resume {
+            Some(r) => cmd.env("C15_RESUME", r),
+            None => cmd.env_remove("C15_RESUME"),
+        };
+        let mut child = cmd.spawn().unwrap();
         let stdout = child.stdout.take().unwrap();
         let (tx, rx) = mpsc::channel::<String>();
         std::thread::spawn(move || {
@@ -1477,13 +1609,21 @@ pub fn run(seed: u64, tier: &str, outdir: &str) {
         });
         let mut cur_case = start;
         let mut pending_op: Option<String> = None;
+        let mut last_ctx: serde_json::Value = serde_json::Value::Null;
         loop {
-            match rx.recv_timeout(Duration::from_millis(if pending_op.is_some() { 5000 } else { 180000 })) {
+            match rx.recv_timeout(Duration::from_millis(if pending_op.is_some() { 2500 } else { 180000 })) {
                 Ok(l) => {
                     let (tag, rest) = l.split_once('\t').unwrap_or((&l, ""));
                     match tag {
-                        "C" => cur_case = rest.parse().unwrap_or(cur_case),
+                        "C" => {
+                            let c = rest.parse().unwrap_or(cur_case);
+                            if c != cur_case {
+                                stalls_in_case = 0;
+                            }
+                            cur_case = c;
+                        }
                         "S" => out.setup(rest),
+                        "F" => last_ctx = serde_json::from_str(rest).unwrap_or(serde_json::Value::Null),
                         "O" => pending_op = Some(rest.to_string()),
                         "I" => {
                             if let Some(op) = pending_op.take() {
@@ -1507,19 +1647,47 @@ pub fn run(seed: u64, tier: &str, outdir: &str) {
                 Err(_) => {
                     let _ = child.kill();
                     let _ = child.wait();
+                    resume = None;
+                    start = cur_case + 1;
                     if let Some(op) = pending_op.take() {
-                        out.case(&op, "dead");
+                        out.case(&op, "stall");
+                        let feature = last_ctx["feature"].as_str().unwrap_or("unknown").to_string();
+                        out.count(&format!("proto:stall:{}", feature));
                         out.monitor_fail(
-                            "C15/not-converged/consensus-handler-does-not-return",
-                            "ConsensusThread::process_event(BlockFetched) did not return within 5 s",
-                            serde_json::json!({"case_index": cur_case, "seed": seed, "tier": tier, "op": op}),
+                            &format!("C15/consensus-handler-does-not-return/{}", feature),
+                            &format!(
+                                "ConsensusThread::process_event(BlockFetched) of node {} did not return within 2.5 s (Wind/Unwind loop of Blockchain::validate)",
+                                last_ctx["node"].as_str().unwrap_or("?")
+                            ),
+                            serde_json::json!({"suite": "forkid", "seed": seed, "tier": tier, "case_index": cur_case, "case": last_ctx["case"], "run": last_ctx["run"],
+                                "schedule": last_ctx["trace"].as_array().map(|t| t.iter().map(|x| x[0].clone()).collect::<Vec<_>>()), "events": last_ctx["events"], "op": op}),
                         );
                         stalls += 1;
+                        stalls_in_case += 1;
+                        // continue the same case after the schedule that stalled
+                        let runs_done = last_ctx["run"].as_u64().unwrap_or(0) as usize + 1;
+                        let all = pair_cases(seed, tier);
+                        if let Some(spec) = all.get(cur_case) {
+                            let more = runs_done < spec.max_runs && spec.schedule.is_none() && stalls_in_case < 6;
+                            if more && spec.exhaustive {
+                                let trace: Vec<(usize, usize)> = last_ctx["trace"]
+                                    .as_array()
+                                    .map(|t| t.iter().map(|x| (x[0].as_u64().unwrap_or(0) as usize, x[1].as_u64().unwrap_or(1) as usize)).collect())
+                                    .unwrap_or_default();
+                                if let Some(p) = next_prefix(&trace) {
+                                    resume = Some(format!("{};{}", runs_done, p.iter().map(|x| x.to_string()).collect::<Vec<_>>().join(",")));
+                                    start = cur_case;
+                                }
+                            } else if more {
+                                resume = Some(format!("{};", runs_done));
+                                start = cur_case;
+                            }
+                        }
                     } else {
                         out.count("proto:worker-died-outside-consensus-handler");
                     }
-                    start = cur_case + 1;
-                    if stalls > 10 {
+                    if stalls >= max_stalls {
+                        out.count("proto:too-many-stalls-stopped-early");
                         break 'outer;
                     }
                     continue 'outer;
